@@ -75,7 +75,9 @@ Print Assumptions C16_partial_fetch_unchanged_when_suppressed.
 
 (* Event streams, under ownership: every subscriber's stream (early or late registration) is per-key
    well-formed — Add only of an absent key, Update/Delete only of a present key with its current value, no
-   no-op Update — and replaying it reproduces the contents; for every history and schedule. *)
+   no-op Update — and replaying it reproduces the contents; for every history and schedule.
+   RegisterBatch(f, true) is ONE atomic model step (snapshot + insertion, as the real code does under h.mu); the
+   atomicity of the real call is validated by the late-registration-under-churn cases (schedule sampling). *)
 Theorem C16_events_consistent :
   forall (univ : list N) (tr : iobj -> (N -> filt -> list sobj) -> list dep * list (N * N))
          (owner : N -> N) (valid : iobj -> Prop),
